@@ -13,6 +13,7 @@ import Poulpy.Props.C02
 import Poulpy.Props.C08
 import Poulpy.Lemmas.MulTensor
 import Poulpy.Lemmas.EpNorm
+import Poulpy.Lemmas.GadgetCore
 
 /-!
 # C04 — external products and CMux multiply by the EpGGSW plaintext within noise
@@ -443,6 +444,22 @@ theorem ep_executed_identity (N : Nat) (sk : List Poly) (a : List Col) (g : EpGG
   exact Core.ring_regroup _ _ _ _ _ _
 
 
+/-- non-vacuity: for any `β`, `m2`, `σ` the key relation holds with `E` := the difference, here on the `dsize = 3` GGSW `staleG` -/
+example (β m2 : Ks.R 1) (σ : ℕ → Ks.R 1) :
+    ∑ l ∈ Finset.range 4,
+        Ks.ι 1 (Ks.phaseRow [[1]] ((epInternal [[[1], [2], [3]], [[0], [1], [0]]] staleG (zeroCols 1 2 4) (zeroCols 1 2 4)).map
+          (fun col => limbOr0 1 col l))) * β ^ (4 - 1 - l)
+      = m2 * ∑ i ∈ Finset.range 2, σ i * Gadget.usedVal β 4 3 1 3 (Ks.inLimb 1 (mkBuf 1 2 3 [[[1], [2], [3]], [[0], [1], [0]]]) i)
+        + ∑ i ∈ Finset.range 2,
+            (∑ r ∈ Finset.range 1, Gadget.digit β 3 1 3 (Ks.inLimb 1 (mkBuf 1 2 3 [[[1], [2], [3]], [[0], [1], [0]]]) i) r *
+                (Gadget.val β 4 (Ks.keyPhase 1 [[1]] staleG.toPMat i r) - m2 * σ i * β ^ (4 - (r + 1) * 3))
+              - Gadget.dropped β 4 3 1 3 (Ks.inLimb 1 (mkBuf 1 2 3 [[[1], [2], [3]], [[0], [1], [0]]]) i) (Ks.keyPhase 1 [[1]] staleG.toPMat i)
+              - β ^ 4 * Gadget.head β 3 1 3 (Ks.inLimb 1 (mkBuf 1 2 3 [[[1], [2], [3]], [[0], [1], [0]]]) i) (Ks.keyPhase 1 [[1]] staleG.toPMat i)) :=
+  ep_executed_identity 1 [[1]] _ staleG _ _ β m2 σ
+    (fun i r => Gadget.val β 4 (Ks.keyPhase 1 [[1]] staleG.toPMat i r) - m2 * σ i * β ^ (4 - (r + 1) * 3))
+    (by decide) (by decide) rfl (by decide) (by decide) (by decide) (Ks.entry_length staleG.toPMat 1 rfl (by decide)) (by decide)
+    (by intro i _ r _; exact (add_sub_cancel _ _).symm)
+
 /-- entry points → the executed product: `glwe_external_product` (hence every cell of the GGLWE / GGSW forms, which call it)
 normalises `epInternal` of the radix-converted input with zeroed scratch … -/
 theorem glweExternalProduct_accumulator (big128 : Bool) (n rb rs : Nat) (a : List Col) (ab : Nat) (g : EpGGSW) (aConv : List Col)
@@ -476,6 +493,76 @@ example : cmux false 1 4 3 [[[1], [2], [3]], [[0], [1], [0]]] [[[0], [0], [1]], 
       (bigAddSmallAssign false ((epInternal (glweSubSameRank 1 3 [[[1], [2], [3]], [[0], [1], [0]]] [[[0], [0], [1]], [[0], [0], [0]]])
         staleG (zeroCols 1 2 4) (zeroCols 1 2 4)).getD j []) ([[[0], [0], [1]], [[0], [0], [0]]].getD j [])) 4)) :=
   cmux_accumulator false 1 4 3 _ _ staleG _ _ (by decide)
+
+/-! ## Row expansion on the executed model, every key digit size and every rank -/
+
+/-- **`expand_product_phase`** — the gadget product `Core.expandRowCols` executes for output column `c+1`
+(`gglwe_product_dft(res_dft, a_dft, tsk.at(c))`, on the `rank` mask columns `aDft` of the row): the phase of limb `l` is C03's gadget
+accumulation over the `rank` input columns, for every key digit size `dsize ≥ 1`, every rank, any prior content of `res_dft`. -/
+theorem expand_product_phase (N : Nat) (sk : List Poly) (aDft : List Col) (t : ToGGSWKey) (c : Nat) (res0 : List Col) (l : Nat)
+    (hd : 1 ≤ t.dsize) (hN : 0 < N) (hn : t.n = N)
+    (h0 : shapeOk t.n (t.rank + 1) t.size res0 = true) (hM : ∀ j q, ((t.at c).toPMat.entry j q).length = N) :
+    Ks.ι N (Ks.phaseRow sk ((Core.gglweProductDft aDft (t.at c) t.size res0).map (fun col => limbOr0 N col l)))
+      = ∑ i ∈ Finset.range t.rank,
+          Gadget.acc t.size t.dsize t.dnum (aDft.getD 0 []).length
+            (Ks.inLimb N (mkBuf t.n t.rank (aDft.getD 0 []).length aDft) i) (Ks.keyPhase N sk (t.at c).toPMat i) l :=
+  gglweProductDft_phase N sk aDft (t.at c) res0 l hd hN hn (Nat.succ_pos _) h0 hM
+
+/-- a rank-1 key with `dsize = 2` (one row, three limbs) -/
+def exT : ToGGSWKey :=
+  { base2k := 4, n := 1, rank := 1, dsize := 2, dnum := 1, size := 3, keys := [[[[[1], [0], [0]], [[0], [1], [0]]]]] }
+
+example (l : Nat) : Ks.ι 1 (Ks.phaseRow [[1]] ((Core.gglweProductDft [[[2], [1]]] (exT.at 0) 3 (zeroCols 1 2 3)).map (fun col => limbOr0 1 col l)))
+    = ∑ i ∈ Finset.range 1, Gadget.acc 3 2 1 2 (Ks.inLimb 1 (mkBuf 1 1 2 [[[2], [1]]]) i) (Ks.keyPhase 1 [[1]] (exT.at 0).toPMat i) l :=
+  expand_product_phase 1 [[1]] [[[2], [1]]] exT 0 (zeroCols 1 2 3) l (by decide) (by decide) rfl (by decide)
+    (Ks.entry_length (exT.at 0).toPMat 1 rfl (by decide))
+
+/-- **`expand_executed_identity`** — `row_expansion_identity` on the executed model, every key digit size, every rank.  Output column
+`c+1` of a row is the executed product above plus the (radix-converted) body added to column `c+1`, so the value of its phase is
+`Σ_l phase(prod)_l·β^{S−1−l} + s_c·body`.  If the key's input column `i`, row `r` has phase value `s_c·s_i·β^{S−(r+1)·dsize} + E_{i,r}`
+(the oracle checks every key cell against `s_c·s_i`: this is where a wrong secret-tensor index shows) and the row's phase is
+`body + Σ_i s_i·usedVal(a_i) = Me` (`= m2·β^{S−(row+1)·dsize_a·…} + e₀` when no limb is dropped), the cell has phase value
+`s_c·Me + Σ_i (Σ_r digit·E − dropped − β^S·head)`: the same `m2` as column 0 in every column of every row. -/
+theorem expand_executed_identity (N : Nat) (sk : List Poly) (aDft : List Col) (t : ToGGSWKey) (c : Nat) (res0 : List Col)
+    (β sc body Me : Ks.R N) (σ : ℕ → Ks.R N) (E : ℕ → ℕ → Ks.R N)
+    (hd : 1 ≤ t.dsize) (hN : 0 < N) (hn : t.n = N)
+    (h0 : shapeOk t.n (t.rank + 1) t.size res0 = true) (hM : ∀ j q, ((t.at c).toPMat.entry j q).length = N)
+    (hS : t.dnum * t.dsize ≤ t.size)
+    (hkey : ∀ i, i < t.rank → ∀ r, r < t.dnum →
+      Gadget.val β t.size (Ks.keyPhase N sk (t.at c).toPMat i r) = sc * σ i * β ^ (t.size - (r + 1) * t.dsize) + E i r)
+    (hrow : body + ∑ i ∈ Finset.range t.rank,
+        σ i * Gadget.usedVal β t.size t.dsize t.dnum (aDft.getD 0 []).length (Ks.inLimb N (mkBuf t.n t.rank (aDft.getD 0 []).length aDft) i) = Me) :
+    ∑ l ∈ Finset.range t.size,
+        Ks.ι N (Ks.phaseRow sk ((Core.gglweProductDft aDft (t.at c) t.size res0).map (fun col => limbOr0 N col l))) * β ^ (t.size - 1 - l)
+      + sc * body
+      = sc * Me + ∑ i ∈ Finset.range t.rank,
+            (∑ r ∈ Finset.range t.dnum,
+                Gadget.digit β t.dsize t.dnum (aDft.getD 0 []).length (Ks.inLimb N (mkBuf t.n t.rank (aDft.getD 0 []).length aDft) i) r * E i r
+              - Gadget.dropped β t.size t.dsize t.dnum (aDft.getD 0 []).length
+                  (Ks.inLimb N (mkBuf t.n t.rank (aDft.getD 0 []).length aDft) i) (Ks.keyPhase N sk (t.at c).toPMat i)
+              - β ^ t.size * Gadget.head β t.dsize t.dnum (aDft.getD 0 []).length
+                  (Ks.inLimb N (mkBuf t.n t.rank (aDft.getD 0 []).length aDft) i) (Ks.keyPhase N sk (t.at c).toPMat i)) := by
+  have h := gglweProductDft_value N sk aDft (t.at c) res0 β sc σ E hd hN hn (Nat.succ_pos _) h0 hM hS hkey
+  rw [show (∑ l ∈ Finset.range t.size,
+        Ks.ι N (Ks.phaseRow sk ((Core.gglweProductDft aDft (t.at c) t.size res0).map (fun col => limbOr0 N col l))) * β ^ (t.size - 1 - l)) = _ from h,
+    ← hrow]
+  exact Core.expand_regroup _ _ _ _
+
+/-- non-vacuity: the `dsize = 2` key `exT`, `E` := the difference, `Me` := the row phase -/
+example (β sc body : Ks.R 1) (σ : ℕ → Ks.R 1) :
+    ∑ l ∈ Finset.range 3,
+        Ks.ι 1 (Ks.phaseRow [[1]] ((Core.gglweProductDft [[[2], [1]]] (exT.at 0) 3 (zeroCols 1 2 3)).map (fun col => limbOr0 1 col l))) * β ^ (3 - 1 - l)
+      + sc * body
+      = sc * (body + ∑ i ∈ Finset.range 1, σ i * Gadget.usedVal β 3 2 1 2 (Ks.inLimb 1 (mkBuf 1 1 2 [[[2], [1]]]) i))
+        + ∑ i ∈ Finset.range 1,
+            (∑ r ∈ Finset.range 1, Gadget.digit β 2 1 2 (Ks.inLimb 1 (mkBuf 1 1 2 [[[2], [1]]]) i) r *
+                (Gadget.val β 3 (Ks.keyPhase 1 [[1]] (exT.at 0).toPMat i r) - sc * σ i * β ^ (3 - (r + 1) * 2))
+              - Gadget.dropped β 3 2 1 2 (Ks.inLimb 1 (mkBuf 1 1 2 [[[2], [1]]]) i) (Ks.keyPhase 1 [[1]] (exT.at 0).toPMat i)
+              - β ^ 3 * Gadget.head β 2 1 2 (Ks.inLimb 1 (mkBuf 1 1 2 [[[2], [1]]]) i) (Ks.keyPhase 1 [[1]] (exT.at 0).toPMat i)) :=
+  expand_executed_identity 1 [[1]] [[[2], [1]]] exT 0 (zeroCols 1 2 3) β sc body _ σ
+    (fun i r => Gadget.val β 3 (Ks.keyPhase 1 [[1]] (exT.at 0).toPMat i r) - sc * σ i * β ^ (3 - (r + 1) * 2))
+    (by decide) (by decide) rfl (by decide) (Ks.entry_length (exT.at 0).toPMat 1 rfl (by decide)) (by decide)
+    (by intro i _ r _; exact (add_sub_cancel _ _).symm) rfl
 
 /-! ## The final `vec_znx_big_normalize` (torus-wrap step) -/
 
